@@ -167,6 +167,9 @@ def run_cro(topo):
             self.p_spl = p
             self.f_psi_sign = ctx.real("f_psi_sign")
             ctx.assume(Or(self.f_psi_sign == 1, self.f_psi_sign == -1))
+            # the ORDER of the 1D profile table (axis->edge or edge->axis, both accepted through
+            # f_psi_sign) is not the radial direction of psi: left free here
+            self.psi_increasing = ctx.bool("profile_table_ascending")
             captured["allr"] = allr
             return orig(self, allr, segments)
 
